@@ -295,44 +295,17 @@ def rank(vecs):
 
 
 def choi_flows(specgens_line, rec_forms, n, nm):
-    """flows read off the final Choi stabilizer generators whose sign form is expressible through recorded measurements"""
-    flows = []
-    # solve mask = xor of rec masks
-    basis = {}
-    for k, (c, m) in enumerate(rec_forms):
-        v, comb, cc = m, 1 << k, c
-        while v:
-            t = v.bit_length() - 1
-            if t in basis:
-                bv, bcomb, bc = basis[t]
-                v ^= bv
-                comb ^= bcomb
-                cc ^= bc
-            else:
-                basis[t] = (v, comb, cc)
-                break
+    """complete basis of the circuit's flows: elements of the final Choi stabilizer group whose sign is a function of the record"""
+    from vlib import equiv
+    gens = []
     for item in specgens_line.split(' '):
-        if '/' not in item:
-            continue
-        form, bits = item.split('/')
-        c, m = stimtext.parse_form(form)
-        comb = 0
-        v = m
-        ok = True
-        while v:
-            t = v.bit_length() - 1
-            if t not in basis:
-                ok = False
-                break
-            bv, bcomb, bc = basis[t]
-            v ^= bv
-            comb ^= bcomb
-            c ^= bc
-        if not ok:
-            continue
+        if '/' in item:
+            form, bits = item.split('/')
+            gens.append((stimtext.parse_form(form), bits))
+    flows = []
+    for bits, c, sh, recs in equiv.observable_stabilizers(gens, rec_forms, 0, 2 * n):
         pout, pin = bits[:n], bits[n:2 * n]
         ny = sum(1 for ch in pin if ch == 'Y')
-        recs = [k for k in range(nm) if (comb >> k) & 1]
         flows.append((c ^ (ny & 1), pin, pout, recs))
     return flows
 
